@@ -385,12 +385,114 @@ func e3Case(seed uint64, n int) Case {
 
 var _ metav1.Object
 
+// e3BigCase: relists/refilters of MANY objects alternating between
+// distinguishable complete states; every List() must be exactly one of them.
+func e3BigCase(seed uint64, n int) Case {
+	rng0 := kit.NewRng(kit.Mix(seed, uint64(n)+3300))
+	N := []int{130, 300, 1000, 257}[n%4]
+	disjoint := (n/4)%2 == 0
+	R := 2 + rng0.Intn(5)
+	G := 24
+	procs := []int{4, 8, 16}[rng0.Intn(3)]
+	d := map[string]interface{}{"seed": seed, "n": n, "objects_per_state": N, "disjoint_key_sets": disjoint, "readers": R, "generations": G, "gomaxprocs": procs}
+	id := fmt.Sprintf("E3/big/%d/%d", seed, n)
+	return Case{ID: id, Desc: d, Bubble: false, Run: func(r *Res) {
+		old := runtime.GOMAXPROCS(procs)
+		defer runtime.GOMAXPROCS(old)
+		ctx, cancel := ctxWithCancel()
+		c := kcache.VerifNewCache(ctx, kit.NullLog{Yield: true}, nil, kit.TNull().Build())
+		defer func() { cancel(); <-c.Done() }()
+		gen := func(g int) []metav1.Object {
+			out := make([]metav1.Object, N)
+			for i := 0; i < N; i++ {
+				name := fmt.Sprintf("k%04d", i)
+				if disjoint {
+					name = fmt.Sprintf("%c%04d", 'a'+byte(g%2), i)
+				}
+				out[i] = kit.Pod("ns", name, fmt.Sprint(g*2000+i), map[string]string{"g": fmt.Sprint(g)})
+			}
+			return out
+		}
+		var cur atomic.Int64 // generation whose write has STARTED
+		var done atomic.Bool
+		var wg sync.WaitGroup
+		var snaps atomic.Int64
+		for rd := 0; rd < R; rd++ {
+			wg.Add(1)
+			go func(rd int) {
+				defer wg.Done()
+				last := 0
+				for !done.Load() {
+					started := int(cur.Load())
+					l, err := c.List()
+					if err != nil {
+						r.V("C15", "read-error", "List: %v", err)
+						return
+					}
+					snaps.Add(1)
+					if len(l) == 0 {
+						if last > 0 {
+							r.V("C15", "torn-snapshot", "reader %d: List() returned an empty cache after generation %d had been seen (%d objects per state)", rd, last, N)
+							return
+						}
+						continue
+					}
+					gens := map[string]int{}
+					for _, o := range l {
+						gens[o.GetLabels()["g"]]++
+					}
+					if len(gens) != 1 || len(l) != N {
+						r.V("C15", "torn-snapshot", "reader %d: List() returned %d objects from generations %v while the writer alternates between complete states of %d objects (disjoint key sets: %v): a half-applied relist/refilter was observed", rd, len(l), gens, N, disjoint)
+						return
+					}
+					g := kit.Atoi(l[0].GetLabels()["g"])
+					if g < last {
+						r.V("C15", "reader-went-backwards", "reader %d saw generation %d after generation %d", rd, g, last)
+						return
+					}
+					if g < started-1 {
+						r.V("C15", "stale-snapshot", "reader %d: List() called after the write of generation %d had started returned generation %d although generation %d was complete", rd, started, g, started-1)
+						return
+					}
+					last = g
+					for i := range l {
+						l[i] = nil
+					}
+				}
+			}(rd)
+		}
+		for g := 1; g <= G; g++ {
+			cur.Store(int64(g))
+			var err error
+			if g%3 == 0 {
+				_, err = c.Refilter(gen(g), kit.TNull().Build())
+			} else {
+				_, err = c.Sync(gen(g))
+			}
+			if err != nil {
+				r.V("C15", "write-error", "%v", err)
+				break
+			}
+		}
+		done.Store(true)
+		wg.Wait()
+		r.Add("big-histories", 1)
+		r.Add("big-snapshots", snaps.Load())
+		r.Key(id)
+		r.Sample = map[string]interface{}{"desc": d, "snapshots_checked": snaps.Load()}
+	}}
+}
+
 func init() {
 	register("E3", func(tier string, seed uint64) []Case {
 		var cases []Case
 		n := tierPick(tier, 320, 6000)
 		for i := 0; i < n; i++ {
 			cases = append(cases, e3Case(seed, i))
+		}
+		nb := tierPick(tier, 48, 800)
+		for i := 0; i < nb; i++ {
+			cases = append(cases, e3BigCase(seed, i))
 		}
 		return cases
 	})
